@@ -399,7 +399,12 @@ func (w *World) evalSpecBody(ev *Env, fn *SpecFn, args []SVal) SVal {
 	}
 	n := &Env{W: w, st: ev.st, pkg: nil, bound: map[string]SVal{}, depth: ev.depth + 1}
 	for i, p := range fn.Params {
-		n.bound[p.Name] = args[i]
+		a := args[i]
+		if si, ok := a.(SInt); ok && ev.depth == 0 {
+			// arguments of (inlined) spec functions are instantiation candidates
+			a = SInt{Mark(si.T, tyKey(si.Ty)), si.Ty}
+		}
+		n.bound[p.Name] = a
 	}
 	v := n.eval(fn.Body)
 	rt := w.retTy(fn)
